@@ -110,15 +110,39 @@ func (w *World) buildScoreModel(add func(ok bool, rule, inst string, n ast.Node,
 		return nil
 	}
 	m := &scoreModel{p: p, fd: fd, sem: map[types.Object]locSem{}}
+	// the loop nest: the top-level loop with the deepest nesting (other,
+	// shallower loops over small local arrays belong to the prefix or suffix)
+	depthOf := func(s ast.Stmt) int {
+		var rec func(n ast.Node) int
+		rec = func(n ast.Node) int {
+			best := 0
+			ast.Inspect(n, func(x ast.Node) bool {
+				if x == n {
+					return true
+				}
+				switch x.(type) {
+				case *ast.ForStmt, *ast.RangeStmt:
+					if d := 1 + rec(x); d > best {
+						best = d
+					}
+					return false
+				}
+				return true
+			})
+			return best
+		}
+		return 1 + rec(s)
+	}
+	bestDepth := 0
 	for i, s := range fd.Body.List {
 		switch s.(type) {
 		case *ast.ForStmt, *ast.RangeStmt:
-			m.prefix = fd.Body.List[:i]
-			m.loop = s
-			m.suffix = fd.Body.List[i+1:]
-		}
-		if m.loop != nil {
-			break
+			if d := depthOf(s); d > bestDepth {
+				bestDepth = d
+				m.prefix = fd.Body.List[:i]
+				m.loop = s
+				m.suffix = fd.Body.List[i+1:]
+			}
 		}
 	}
 	if m.loop == nil {
